@@ -73,10 +73,10 @@ def fn(case, wit):
     return (side, n)
 
 
-def run(res, factory, tier, seed):
+def run(res, factory, tier, seed, ns=None):
     global _FACTORY
     _FACTORY = factory
-    ns = (5, 6, 7) if tier == "quick" else (5, 6, 7, 8)
+    ns = ns or ((5, 6, 7) if tier == "quick" else (5, 6, 7, 8))
     ev0, dn0 = res.coverage.get("evaluations", 0), res.coverage.get("distinct_nontrivial", 0)
     run_grid(res, "deep_one_sided_books", list(cases(ns)), fn, seed)
     res.coverage["evaluations"] = ev0 + res.coverage["witness_classes"].get("deep_book_cases", 0)
